@@ -626,6 +626,36 @@ class StubTornadoConnectionError(Exception):
 HOOK_EXC = (StubAioConnectionError, StubGatewayConnectionError, StubTornadoConnectionError)
 
 
+# What the libraries actually raise when the gateway is unreachable is often a more specific class than the one
+# the hook registers (requests: ConnectTimeout, SSLError, ProxyError are ConnectionErrors; aiohttp:
+# ClientConnectorError -> ClientConnectorCertificateError, ServerDisconnectedError, ...).
+class StubGatewayConnectTimeout(StubGatewayConnectionError):
+    pass
+
+
+class StubGatewaySSLError(StubGatewayConnectionError):
+    pass
+
+
+class StubAioConnectorError(StubAioConnectionError):
+    pass
+
+
+class StubAioConnectorCertificateError(StubAioConnectorError):
+    pass
+
+
+class StubTornadoStreamClosedError(StubTornadoConnectionError):
+    pass
+
+
+RAISED_AS = {
+    StubGatewayConnectionError: (StubGatewayConnectionError, StubGatewayConnectTimeout, StubGatewaySSLError),
+    StubAioConnectionError: (StubAioConnectionError, StubAioConnectorError, StubAioConnectorCertificateError),
+    StubTornadoConnectionError: (StubTornadoConnectionError, StubTornadoStreamClosedError),
+}
+
+
 class AppError(Exception):
     pass
 
@@ -704,7 +734,9 @@ class BreakerHarness:
                             fs.validate_headers({"content-type": "text/plain", "x-lunar-error": code})
                         elif outcome == "conn":
                             # the connection error of one of the client libraries whose hook registered it
-                            raise self.hook_exc[len(self.case["steps"]) % len(self.hook_exc)]("connection to the gateway failed")
+                            k = len(self.case["steps"])
+                            variants = RAISED_AS[self.hook_exc[k % len(self.hook_exc)]]
+                            raise variants[(k // len(self.hook_exc)) % len(variants)]("connection to the gateway failed")
                         else:
                             raise app_exc
         except BaseException as e:  # noqa: BLE001
@@ -887,6 +919,15 @@ def install_stub_libs():
     class ReadTimeout(Timeout):
         pass
 
+    class ConnectTimeout(ConnectionError, Timeout):
+        pass
+
+    class SSLError(ConnectionError):
+        pass
+
+    class ProxyError(ConnectionError):
+        pass
+
     class HTTPError(RequestException):
         pass
 
@@ -936,7 +977,9 @@ def install_stub_libs():
                 elif outcome == "hdr":
                     r = Response(503, {"content-type": "text/plain", "X-Lunar-Error": payload}, via)
                 elif outcome == "conn":
-                    raise ConnectionError("cannot connect to the gateway")
+                    # the class the hook registers, or one of its more specific kinds (as in the real library)
+                    kinds = (ConnectionError, ConnectTimeout, SSLError, ProxyError)
+                    raise kinds[len(WORLD.calls) % len(kinds)]("cannot connect to the gateway")
                 else:
                     raise payload
             else:
@@ -955,7 +998,7 @@ def install_stub_libs():
     sessions = types.ModuleType("requests.sessions")
     sessions.Session = Session
     exceptions = types.ModuleType("requests.exceptions")
-    for c in (RequestException, ConnectionError, Timeout, ReadTimeout, HTTPError):
+    for c in (RequestException, ConnectionError, Timeout, ReadTimeout, HTTPError, ConnectTimeout, SSLError, ProxyError):
         setattr(exceptions, c.__name__, c)
         setattr(rq, c.__name__, c)
     rq.Session, rq.Response, rq.get = Session, Response, get
